@@ -18,7 +18,7 @@ ENC = {'COMPLETE': SelChoiceEncoderType.COMPLETE, 'FAST': SelChoiceEncoderType.F
 
 
 def gen_problem(rng, streams=('tame', 'tree', 'cons', 'dv', 'conn', 'conn-dv'), shared=False):
-    """A spec with optional DV nodes and at most one connection choice."""
+    """A spec with optional DV nodes and up to two connection choices."""
     s = rng.choice(streams)
     if s == 'tame':
         spec = gen.gen_tame(rng)
@@ -41,9 +41,9 @@ def gen_problem(rng, streams=('tame', 'tree', 'cons', 'dv', 'conn', 'conn-dv'), 
     elif s == 'dv':
         spec = gen.attach_dvs(rng, gen.gen_tree(rng, depth=2, incompat=rng.random() < .3), 1, 2)
     elif s == 'conn':
-        spec = gen.gen_conn(rng)
+        spec = gen.gen_conn(rng, second_conn=.3)
     else:
-        spec = gen.attach_dvs(rng, gen.gen_conn(rng, p_group=.2), 1, 2)
+        spec = gen.attach_dvs(rng, gen.gen_conn(rng, p_group=.2, second_conn=.25), 1, 2)
     spec['stream'] = s
     return spec
 
@@ -109,14 +109,16 @@ class Problem:
         b, spec = self.b, self.spec
         row = c11.sel_row(b, spec, inst)
         mats = []
-        odd = []
+        odd = None
         for cc, mconn, sidx, tidx in self.conn:
             if mconn is None:
                 mats.append(None)
                 continue
             M, o = c11.instance_matrix(b, inst, sidx, tidx)
             mats.append(c11.flat(M))
-            odd += o
+            # a connection edge is "outside" only if it belongs to none of the connection choices
+            odd = set(o) if odd is None else (odd & set(o))
+        odd = sorted(odd or [])
         present = set(b.node_ids(inst))
         dvals = []
         for d in self.dv_nodes():
